@@ -131,3 +131,40 @@ package transactional
 //gvc:  ensures others: s != nil ==> forall(k, -0x7fffffffffffffff, 0x7fffffffffffffff, k != strid(name) ==> rl_view(s, k) == old(rl_view(s, k)))
 //gvc:  ensures base: s != nil ==> s.base.#loglen == old(s.base.#loglen)
 //gvc:end
+
+// Shallow commits (C19): the view is the list set in this transaction when
+// one was set -- the empty list included: the repository was unshallowed --
+// and the base storage's list otherwise; Commit stores exactly that list into
+// the base storage, and nothing when none was set.
+//gvc:func (*ShallowStorage).SetShallow
+//gvc:  props C19
+//gvc:  theory int
+//gvc:  opt coarse
+//gvc:  opt frame args
+//gvc:  results err
+//gvc:  requires distinct: s.temporal != s.ShallowStorer
+//gvc:  modifies s.set, s.temporal.#shn
+//gvc:  ensures marked: err == nil ==> s.set && s.temporal.#shn == len(commits)
+//gvc:  ensures base: s.ShallowStorer.#shn == old(s.ShallowStorer.#shn)
+//gvc:end
+
+//gvc:func (*ShallowStorage).Shallow
+//gvc:  props C19
+//gvc:  theory int
+//gvc:  opt coarse
+//gvc:  opt frame args
+//gvc:  results commits err
+//gvc:  ensures view: err == nil ==> len(commits) == ite(s.set, s.temporal.#shn, s.ShallowStorer.#shn)
+//gvc:end
+
+//gvc:func (*ShallowStorage).Commit
+//gvc:  props C19
+//gvc:  theory int
+//gvc:  opt coarse
+//gvc:  opt frame args
+//gvc:  results err
+//gvc:  requires distinct: s.temporal != s.ShallowStorer
+//gvc:  modifies s.ShallowStorer.#shn
+//gvc:  ensures applied: err == nil && s.set ==> s.ShallowStorer.#shn == s.temporal.#shn
+//gvc:  ensures untouched: !s.set ==> s.ShallowStorer.#shn == old(s.ShallowStorer.#shn)
+//gvc:end
